@@ -206,6 +206,15 @@ def enum_set(tier):
         eds += _forms(n, (0, mx))[:1 if tier == 'quick' else 4]
         eds += _forms(n, (0, 1, 1 << (n - 1), mx))[:1]
         eds += _forms(n, (mx, 1 << (n - 1), 1, 0))[:1]
+        # discriminants far below the capacity of the base: around every 8/16/32-bit mark below n
+        eds += _forms(n, (0, 1, 2, 7))[:1]
+        eds += _forms(n, narrow_discs(n))[:1]
+        if tier == 'thorough' or n in (9, 12, 16, 17, 24, 32, 33, 48, 63, 64):
+            for k in (8, 16, 32):
+                if k < n:
+                    for ds in ((1 << k,), (0, 1 << k), (0, (1 << k) - 1), (0, (1 << k) + 1), ((1 << k), 0, 1, (1 << k) - 1, (1 << k) + 1)):
+                        eds += _forms(n, ds)[:1]
+                    eds.append(EnumDef(n, 'conditional', (0, 1 << k), dead=((1 << k) - 1,)))
         if n in (9, 16, 17, 32, 33, 63, 64):
             eds += _forms(n, (0, mx))
             eds.append(EnumDef(n, 'conditional', (mx, 0), dead=(1, 2)))
@@ -274,7 +283,22 @@ def ne_enum(w):
     return EnumDef(w, 'false', tuple(ds), omit_exh=(w % 2 == 0), alias=f"Q{w}")
 
 
+def narrow_discs(w):
+    """discriminants far below the capacity of a w-bit enum, around the nearest 8/16/32-bit mark below w"""
+    if w < 3:
+        return None
+    if w < 9:
+        return (0, 1, 1 << (w - 2))
+    k = max(k for k in (8, 16, 32) if k < w)
+    return (0, 1, (1 << k) - 1, 1 << k)
+
+
+def narrow_enum(w):
+    return EnumDef(w, 'false', narrow_discs(w), omit_exh=(w % 2 == 1), alias=f"Z{w}")
+
+
 NE_WIDTHS = (1, 2, 3, 4, 5, 6, 7, 8, 9, 16, 17, 32, 33, 63, 64)
+NARROW_WIDTHS = (3, 4, 8, 9, 12, 16, 17, 24, 32, 33, 48, 64)
 IN_WIDTHS = (1, 3, 4, 8, 12, 16, 24, 32, 64, 100, 128)
 
 
@@ -287,18 +311,20 @@ def custom_fields(n, tier):
             return dict(kind='e', enum=ex_enum(w), **kw)
         if kind == 'o':
             return dict(kind='o', enum=ne_enum(w), **kw)
+        if kind == 'z':
+            return dict(kind='o', enum=narrow_enum(w), **kw)
         return dict(kind='c', inner_n=w, **kw)
 
-    cands = [('e', w) for w in exw] + [('o', w) for w in NE_WIDTHS] + [('c', w) for w in IN_WIDTHS]
+    cands = [('e', w) for w in exw] + [('o', w) for w in NE_WIDTHS] + [('c', w) for w in IN_WIDTHS] + [('z', w) for w in NARROW_WIDTHS]
     for kind, w in cands:
         if w > n:
             continue
-        fam = {'e': 'CUSTEX', 'o': 'CUSTOPT', 'c': 'CUSTNEST'}[kind]
+        fam = {'e': 'CUSTEX', 'o': 'CUSTOPT', 'c': 'CUSTNEST', 'z': 'CUSTOPTZ'}[kind]
         for lo in sorted({0, 1, n - w} & set(range(0, n - w + 1))):
             f0 = Field([(lo, w)], family=fam, qualified=(lo == 1), form=('list1' if lo == 1 and w % 2 else 'auto'), **mk(kind, w))
             if lo == 0 and w % 2 == 0:
                 f0.type_alias = True          # the field type written through a type alias of the enum / nested bitfield
-            if kind == 'o' and lo != 1:
+            if kind in ('o', 'z') and lo != 1:
                 # `Option` written with a path: the same Rust type (the macro looks at the last path segment)
                 f0.opt_path = ('core::option::', '::core::option::', 'std::option::', '')[(w + lo + n) % 4]
             out.append(f0)
